@@ -1,0 +1,40 @@
+//go:build verif
+
+// Contracts for the verifier in /verif (comment-only file; contributes no declarations).
+package resources
+
+//@ pure APIStreamI.GetID
+
+// ghost events: how often Dec was delivered for a request id, and to which quota object last
+//@ ghost var gDecCount gmap[string]int
+//@ ghost var gDecObj gmap[string]any
+
+// the strategy object's Dec, reached through the interface (its own contract is proved in the quota package)
+//@ iface QuotaResourceI.Dec
+//@   params s
+//@   modifies gDecCount, gDecObj, now
+//@   ensures gDecCount[s.GetID()] == old(gDecCount[s.GetID()]) + 1 && gDecObj[s.GetID()] == self
+//@   ensures forall(r, string, r != s.GetID() ==> gDecCount[r] == old(gDecCount[r]) && gDecObj[r] == old(gDecObj[r]))
+
+//@ ghost func regCtx(rm *ResourceManagement) *lunarcontext.contextMemory = rm.reqIDToQuota.(*lunarcontext.contextMemory)
+//@ ghost func rmOK(rm *ResourceManagement) bool = rm != nil && typeis(rm.reqIDToQuota, *lunarcontext.contextMemory) && regCtx(rm) != nil
+
+// A dropped request (early response, proxy-side error) gives its slot back: Dec is delivered exactly once to the quota
+// object registered for the request id, and the registration is forgotten (so a second drop is a no-op).
+//@ func (*ResourceManagement).OnRequestDrop
+//@   prop C02
+//@   requires rmOK(rm)
+//@   requires[registered-are-quotas] forall(r, string, smapin(regCtx(rm).ctx, r) ==> typeis(smapget(regCtx(rm).ctx, r), publicTypes.QuotaResourceI))
+//@   modifies smapof(regCtx(rm).ctx), gDecCount, gDecObj, now
+//@   ensures[dec-delivered] old(smapin(regCtx(rm).ctx, APIStream.GetID())) ==> gDecCount[APIStream.GetID()] == old(gDecCount[APIStream.GetID()]) + 1 && gDecObj[APIStream.GetID()] == old(smapget(regCtx(rm).ctx, APIStream.GetID()))
+//@   ensures[unregistered-noop] !old(smapin(regCtx(rm).ctx, APIStream.GetID())) ==> gDecCount[APIStream.GetID()] == old(gDecCount[APIStream.GetID()])
+//@   ensures[forgotten] !smapin(regCtx(rm).ctx, APIStream.GetID())
+//@   ensures[others] forall(r, string, r != APIStream.GetID() ==> gDecCount[r] == old(gDecCount[r]) && (smapin(regCtx(rm).ctx, r) <==> old(smapin(regCtx(rm).ctx, r))) && smapget(regCtx(rm).ctx, r) == old(smapget(regCtx(rm).ctx, r)))
+
+// A finished response only forgets the registration (the slot was given back by the dec processor of the system flow).
+//@ func (*ResourceManagement).OnResponseFinish
+//@   prop C02
+//@   requires rmOK(rm)
+//@   modifies smapof(regCtx(rm).ctx), now
+//@   ensures[forgotten] !smapin(regCtx(rm).ctx, APIStream.GetID())
+//@   ensures[others] forall(r, string, r != APIStream.GetID() ==> (smapin(regCtx(rm).ctx, r) <==> old(smapin(regCtx(rm).ctx, r))) && smapget(regCtx(rm).ctx, r) == old(smapget(regCtx(rm).ctx, r)))
